@@ -126,12 +126,26 @@ def _no_fallback_to_the_wire_name(ctx, f, lookups):
                   'declared with export=False, the attribute name of a renamed parameter, any accessible of an unexported module can be read, changed and executed', f)
 
 
+def lookups_done_elsewhere(m, f):
+    """the module and the accessible are not looked up in f itself but by an object of a class of the dispatcher module that f
+    constructs (`moduleobj, pname, pobj = _AddressedParameter(self.secnode, modulename, exportedname)`): the chain of refusals
+    lives in that class and is not followed - the anchors of these rules are gone, nothing is decided"""
+    if any(call_attr(c) == 'get_module' for c in calls_in(f.node)) or any('.modules' in src(x) for x in body_walk(f.node) if isinstance(x, ast.Subscript)):
+        return
+    for c in calls_in(f.node):
+        q = m.resolve_name(f.module, c.func.id) if isinstance(c.func, ast.Name) else None
+        if q in m.classes and m.classes[q].module is f.module:
+            raise AnchorMissing(f'{f.qualname} has its module / accessible looked up by an object of class {q.rpartition(".")[2]}: that class is not followed')
+
+
 @rule('C04.R1', min_instances=9)
 def gates_in_order(ctx):
     """must-pass-through chain for change and do requests"""
     m = ctx.m
     f = m.method(D, '_setParameterValue', inherited=False)
     ctx.analysed(f)
+    lookups_done_elsewhere(m, f)
+    lookups_done_elsewhere(m, m.method(D, '_execute_command', inherited=False))
     cfg = CFG(f.node, m, f.module)
     drv = _driver_calls_setparam(f)
     if not drv:
@@ -200,6 +214,20 @@ def _command_do(m):
     return m.method(roles.COMMAND, 'do', inherited=False)
 
 
+def _not_wrapped(f, fname):
+    """the bound command function is only ever called by its name or handed to a method of the command: once it is stored
+    under another name or wrapped (`call = partial(func, *checked)`), the calls can not be told from here"""
+    for n in body_walk(f.node, into_lambda=True):
+        if isinstance(n, ast.Name) and n.id == fname and isinstance(n.ctx, ast.Load):
+            par = getattr(n, 'parent', None)
+            if isinstance(par, ast.Call) and par.func is n:
+                continue
+            if isinstance(par, ast.Call) and isinstance(par.func, ast.Attribute) and dotted(par.func.value) == 'self':
+                continue
+            raise AnchorMissing(f'the bound command function `{fname}` is re-bound or wrapped in {f.qualname} (`{src(enclosing_stmt(n))[:80]}`): '
+                                'its calls are not followed')
+
+
 def _func_calls_in_do(f):
     """calls of the bound command function: func(...)"""
     fname = None
@@ -208,6 +236,7 @@ def _func_calls_in_do(f):
             fname = n.targets[0].id
     if fname is None:
         raise AnchorMissing('bound command function (self.__get__(module_obj)) not found in Command.do')
+    _not_wrapped(f, fname)
     return [c for c in calls_in(f.node) if isinstance(c.func, ast.Name) and c.func.id == fname]
 
 
@@ -231,6 +260,7 @@ def _command_units(m):
         if f.qualname in seen:
             continue
         seen.add(f.qualname)
+        _not_wrapped(f, name)
         units.append((f, name))
         for c in _func_escapes(f.node, name):
             if isinstance(c.func, ast.Attribute) and dotted(c.func.value) == 'self':
@@ -385,6 +415,14 @@ def error_mapping(ctx):
             if hd.type is not None and dotted(hd.type) == 'SECoPError':
                 ctx.check(first == f'{hd.name}.name', f'{h.qualname}:SECoPError mapped to its class name', hd,
                           'error report carries err.name', f'error report starts with `{first}` instead of the SECoP class name of the exception', h)
+            elif handler_catches_all(hd) and lists and isinstance(lists[0].elts[0], ast.IfExp):
+                # one handler for both kinds, the class name chosen by a condition (`'InternalError' if internal else err.name`)
+                e = lists[0].elts[0]
+                leaves = {src(e.body), src(e.orelse)}
+                if leaves == {"'InternalError'", f'{hd.name}.name'}:
+                    ctx.undecided(f'{h.qualname}:other exceptions mapped to InternalError', hd, f'`{src(e)}`: the class name is chosen by a condition that is not followed', h)
+                else:
+                    ctx.bad(f'{h.qualname}:other exceptions mapped to InternalError', hd, f'error report starts with `{src(e)}`', h)
             elif handler_catches_all(hd):
                 ctx.check(first == "'InternalError'", f'{h.qualname}:other exceptions mapped to InternalError', hd,
                           'error report carries InternalError', f'error report starts with `{first}`', h)
@@ -620,3 +658,37 @@ def default_accessible_only_without_separator(ctx):
                 ctx.ok(key, a, 'the name part is used as it is, the default depends on the separator', fi)
     if not n:
         ctx.ok('specifiers are cut by split / membership test', None, 'no partition(\':\') in the dispatcher')
+
+
+@rule('C04.R6b', min_instances=1)
+def wire_name_is_read_after_the_module_flag_was_applied(ctx):
+    """Module._add_accessible: the exported name that guards and keys the registration in accessiblename2attr is READ only after
+    `if not self.export: accessible.export = False` ran - a name taken into a local before that still registers the accessibles
+    of a module that is not exported (the dispatcher itself never looks at Module.export for change / do)"""
+    m = ctx.m
+    aa = m.method(roles.MODULE, '_add_accessible', inherited=False)
+    ctx.analysed(aa)
+    cfg = CFG(aa.node, m, aa.module)
+    clr = [n for t, v, n in attr_stores(aa.node) if t.attr == 'export' and isinstance(v, ast.Constant) and v.value is False]
+    reg = [n for n in body_walk(aa.node) if isinstance(n, ast.Subscript) and isinstance(n.ctx, ast.Store) and 'accessiblename2attr' in src(n.value)]
+    if not clr or not reg:
+        raise AnchorMissing('`accessible.export = False` / the store into accessiblename2attr not found in _add_accessible')
+    clr_ids = [i for c in clr for i in cfg.node_of(c)]
+    for r in reg:
+        names = {x.id for x in ast.walk(r.slice) if isinstance(x, ast.Name)}
+        for a in ancestors(r):
+            if isinstance(a, ast.If):
+                names |= {x.id for x in ast.walk(a.test) if isinstance(x, ast.Name)}
+        early = []
+        for st in body_walk(aa.node):
+            if isinstance(st, (ast.Assign, ast.NamedExpr)):
+                tg = st.targets[0] if isinstance(st, ast.Assign) else st.target
+                if isinstance(tg, ast.Name) and tg.id in names and any(isinstance(x, ast.Attribute) and x.attr == 'export' and dotted(x.value) != 'self'
+                                                                          for x in ast.walk(st.value)):
+                    # a read of <accessible>.export into a local that guards / keys the registration: may the clearing still follow it?
+                    if cfg.reach(cfg.node_of(st)) & set(clr_ids):
+                        early.append(st)
+        ctx.check(not early, f'{aa.qualname}:wire name read after the module flag was applied', early[0] if early else r,
+                  'every read of the exported name that feeds the registration comes after `accessible.export = False`',
+                  f'`{src(early[0]) if early else ""}` takes the exported name before `if not self.export: accessible.export = False` runs: the '
+                  'accessibles of a module that is not exported are still entered into accessiblename2attr and can be changed / executed by name', aa)
